@@ -98,6 +98,9 @@ let () =
         "exts=" ^ names M.extension_name M.all_extensions;
         "formats=" ^ names M.format_name M.all_formats;
         "styles=" ^ names M.list_style_name M.all_list_styles;
+        "optfields=" ^ String.concat "," (List.map (fun (k, _) ->
+            let k = os k in if k.[String.length k - 1] = '_' then String.sub k 0 (String.length k - 1) else k)
+            (M.copts_to_assoc (M.options_of_cli (parse_cli "-"))));
         "unset=" ^ String.concat "," (List.map (fun (g, n) -> os g ^ "." ^ os n) M.unset_option_fields);
         "gfm=" ^ String.concat "," (List.map os M.gfm_fields);
         "conflicts=" ^ String.concat "," (List.map os M.inplace_conflicts);
